@@ -15,7 +15,8 @@ Record sc_obs := { so_status : list sobs (* sorted by hash *); so_head : Z; so_p
                    so_injected : list (N * list N) (* what the injector wrote for the shard's Prometheus: per job (ascending) the hashes
                                                       (ascending) of its static targets; jobs without targets left out *) }.
 Record sc_case := { sk_prom : Z; sk_now0 : Z; sk_ops : list sc_op; sk_seen : list sc_obs (* after start-up, then after each op *);
-                    sk_kinds : list N (* per op: how the scripted target failed (2 connection, 3 status, 4 body), 0 otherwise *) }.
+                    sk_kinds : list N (* per op: how the scripted target failed (2 connection, 3 status, 4 body), 0 otherwise *);
+                    sk_legacy : assignment (* what a store file of the old format (targets.json) in the store directory holds; [] = no such file *) }.
 
 Fixpoint insert_sobs (t : sobs) (l : list sobs) : list sobs :=
   match l with
@@ -83,8 +84,14 @@ Fixpoint model_trace (prom : Z) (s : sidecar) (ops : list sc_op) : list sc_obs :
   | op :: r => let s' := sc_step s op in obs_of_sidecar prom s' (op_ok s op) :: model_trace prom s' r
   end.
 Definition sidecar_start (now0 : Z) : sidecar := do_restart fresh_sidecar now0.
+(* a store directory that holds only a file of the old format: the assignment without an idle instant *)
+Definition sidecar_start_with (legacy : assignment) (now0 : Z) : sidecar :=
+  match legacy with
+  | [] => sidecar_start now0
+  | _ => do_restart {| sc_targets := []; sc_status := []; sc_idle := None; sc_store := Some (legacy, None) |} now0
+  end.
 Definition sidecar_agree (c : sc_case) : bool :=
-  let s0 := sidecar_start (sk_now0 c) in
+  let s0 := sidecar_start_with (sk_legacy c) (sk_now0 c) in
   list_eqb sc_obs_eqb (obs_of_sidecar (sk_prom c) s0 true :: model_trace (sk_prom c) s0 (sk_ops c)) (sk_seen c).
 
 (* ---- C10: one-step checks between consecutive observations of the implementation ---- *)
@@ -200,8 +207,11 @@ Definition c10_case (c : sc_case) : bool :=
   match sk_seen c with
   | first :: rest =>
     (* after start-up with an empty store: no entries, idle since start-up *)
-    match so_status first with [] => option_eqb Z.eqb (so_idle first) (Some (sk_now0 c)) | _ => false end &&
-    c10_walk [] true first (sk_ops c) rest
+    match sk_legacy c with
+    | [] => match so_status first with [] => option_eqb Z.eqb (so_idle first) (Some (sk_now0 c)) | _ => false end
+    | _ => true   (* resumed from a store of the old format: the restart clause of the walk describes it, below from the first op on *)
+    end &&
+    c10_walk (sk_legacy c) true first (sk_ops c) rest
   | [] => false
   end.
 
@@ -246,7 +256,7 @@ Fixpoint spec_windows (win : amap (list Z)) (acked : assignment) (ops : list sc_
 Definition c14_case (c : sc_case) : bool :=
   match sk_seen c with
   | first :: rest => negb (forallb (fun op => match op with OpUpdate req _ _ => hashes_unique req | _ => true end) (sk_ops c)) ||
-                     (spec_windows [] [] (sk_ops c) rest (sk_prom c) &&
+                     (spec_windows (map (fun t => (t_hash t, [])) (all_targets (sk_legacy c))) (sk_legacy c) (sk_ops c) rest (sk_prom c) &&
                       (* the per-metric counts add up to the totals, and reading them does not change them *)
                       forallb (fun o => so_samples_stable o &&
                                         forallb (fun m => Z.eqb (sm_scraped m) (fst (sm_keep m) + fst (sm_drop m))) (so_samples o)) (sk_seen c))
